@@ -67,6 +67,29 @@ class Falsy(object):
         return 'Falsy()'
 
 
+class FalsyCallable(object):
+    """a callable that is falsy (a memoising wrapper with an empty cache, a callable collection): still a function to register"""
+
+    def __init__(self, fn, how):
+        self.fn, self.how = fn, how
+
+    def __call__(self, *a):
+        return self.fn(*a)
+
+    def __bool__(self):
+        if self.how == 'len':
+            raise TypeError('use len')
+        return False
+
+    def __len__(self):
+        return 0
+
+
+class CallableList(list):
+    def __call__(self, *a):
+        return self.fn(*a)
+
+
 class EqualsAll(object):
     def __eq__(self, other):
         return True
@@ -211,7 +234,21 @@ class Check(FormulaCheck):
                 def fn(*a, _nm=nm, _ret=ret):
                     log.append((_nm, a))
                     return _ret
-                p.set_function(nm, fn)
+                shape = rnd.random()
+                if shape < 0.15:
+                    reg = FalsyCallable(fn, 'bool')
+                elif shape < 0.25:
+                    reg = CallableList()
+                    reg.fn = fn
+                elif shape < 0.35:
+                    import functools
+                    reg = functools.partial(fn)
+                elif shape < 0.45:
+                    reg = type('Host', (object,), {'method': lambda self_, *a, _f=fn: _f(*a)})().method
+                else:
+                    reg = fn
+                rec.cov('callable_shapes', type(reg).__name__)
+                p.set_function(nm, reg)
                 names.append((nm, ret))
             if not names:
                 continue
